@@ -23,12 +23,21 @@
                                    newlines that ends with its last newline, in a context that has
                                    the [\n\n] specials without arguments; [ws] without newline)
     with [ws], [tr], [post] whitespace runs containing at most one newline
-    (never a paragraph break).  NOT covered (rest of stage (d), stage (e)):
+    (never a paragraph break); math kinds [$ $], [\( \)], [\[ \]], [$$ $$] (stage (e2)).
+
+    The theorems named [...2_partial] (second half of this file) cover the
+    EXTENDED grammar of [Doc/DocGrammar2.v]: the above plus
+             | Env2 ws bws name args body tr ews
+                                   ws \begin bws {name} {arg}…{arg} body tr \end ews {name}   (stage (e1):
+                                   environments with mandatory brace arguments, body in math mode when
+                                   declared so)
+
+    NOT covered (rest of stage (d), stages (e3)-(e6)):
     a paragraph break followed by indentation or directly after a control word /
     comment, paragraph-break whitespace in a context without the [\n\n] specials,
     a comment ending at the end of input, optional star / bracket arguments, single-token
-    arguments, whitespace before an argument, environments, specials,
-    [$$ … $$], verbatim.
+    arguments, whitespace before an argument, specials other than the paragraph break,
+    verbatim (macro, environments, argument kind).
 
     Full statement (kept for reference, not proved):
       forall ctx d, ctx_wf ctx = true -> ok_doc ctx d = true ->
@@ -42,8 +51,9 @@
     a specials sequence of the context). *)
 From Coq Require Import NArith List Bool Arith.
 From PLV Require Import Base.PyStr Tok.PState Tok.Tokenizer Parse.Nodes Parse.Parser Parse.ParseWire
-                        Gen.GenWalkerCtx Doc.DocGrammar
-                        Proofs.RoundTripTok Proofs.RoundTripRules Proofs.RoundTrip Proofs.RoundTripWs.
+                        Gen.GenWalkerCtx Doc.DocGrammar Doc.DocGrammar2
+                        Proofs.RoundTripTok Proofs.RoundTripRules Proofs.RoundTrip Proofs.RoundTripWs
+                        Proofs.RoundTrip2 Proofs.RoundTrip2Ws.
 Import ListNotations.
 
 (** ** The round trip: the strict parser, run with its own fuel on the written
@@ -168,4 +178,127 @@ Example C02_whitespace_irrelevant_nonvacuous :
 Proof.
   split; [|split; [vm_compute; reflexivity|split; [vm_compute; discriminate|split; [vm_compute; reflexivity|vm_compute; discriminate]]]].
   unfold ws_variant, wse. cbn. vm_compute. intuition (try discriminate; try reflexivity).
+Qed.
+
+(** [$$ … $$] (stage (e2)) is the fourth [mathkind] of the core grammar:
+    [a $$ b\frac{1}{} $$$d$ $$$$] — display math, then inline math directly
+    after it, then an empty display formula *)
+Example C02_dollars_nonvacuous :
+  let d := {| d_items := [Text [] [97];
+                          Math [32] MDollars [Text [32] [98]; Mac [] [102;114;97;99] [] [Grp [] [Text [] [49]] []; Grp [] [] []]] [32];
+                          Math [] MDollar [Text [] [100]] []; Math [32] MDollars [] []];
+              d_trail := [] |} in
+  ok_doc default_ctx d = true /\
+  parse_top (unparse d) false default_ctx (walker_state default_ctx)
+  = Ok (ONode (Some (gen_nodelist 0 (fst (tree_of default_ctx (walker_state default_ctx) 0 d))))) (length (unparse d)) /\
+  length (fst (tree_of default_ctx (walker_state default_ctx) 0 d)) = 5%nat.
+Proof. vm_compute. repeat split. Qed.
+
+Close Scope N_scope.
+
+(** * The extended grammar of [Doc/DocGrammar2.v] (stage (e))
+
+      item2 ::= Text2 | Grp2 | Mac2 | Math2 | Cmt2 | Par2          (as the core grammar)
+              | Env2 ws bws name args body tr ews
+                      ws \begin bws {name} {arg}…{arg} body tr \end ews {name}
+                      (environment known to the context or covered by its unknown-environment
+                      fallback, standard signature made of mandatory brace arguments; the body is
+                      parsed in math mode when the environment is declared so; [bws], [ews] any
+                      whitespace; only where the state has environments enabled)
+
+    The side conditions [ok_item2] see the whole FOLLOW STRING of an item. *)
+
+(** ** The round trip for the extended grammar *)
+Theorem C02_parse_unparse2_partial : forall cx d,
+  ok_doc2 cx d = true ->
+  parse_top (unparse2 d) false cx (walker_state cx)
+  = Ok (ONode (Some (gen_nodelist 0 (fst (tree_of2 cx (walker_state cx) 0 d))))) (length (unparse2 d)).
+Proof. exact parse_unparse2. Qed.
+Print Assumptions C02_parse_unparse2_partial.
+
+(** ** The simulation behind it (any [Std] state, any collector with
+    [opts_ok], any offset of any input, any follow string) *)
+Theorem C02_items_simulation2_partial : forall s cx l ps o st pos fol k r,
+  Std cx ps -> opts_ok ps o -> r <> OutOfFuel ->
+  ok_items2 cx ps l fol = true ->
+  skipn pos s = unparse_items2 l ++ fol ->
+  run s false cx k (TCollect ps o (fst (absorb2 cx ps pos st l)) (pos + length (unparse_items2 l))) = r ->
+  run s false cx (k + 8 * length (unparse_items2 l)) (TCollect ps o st pos) = r.
+Proof. intros s cx l. exact (items_sim2 s cx (lsize2 l) l (le_n _)). Qed.
+Print Assumptions C02_items_simulation2_partial.
+
+(** ** Whitespace never changes the structure (extended grammar) *)
+Corollary C02_whitespace_irrelevant2_partial : forall cx d d',
+  ws_variant2 d d' -> ok_doc2 cx d = true -> ok_doc2 cx d' = true ->
+  exists n n' p p',
+    parse_top (unparse2 d) false cx (walker_state cx) = Ok (ONode (Some n)) p /\
+    parse_top (unparse2 d') false cx (walker_state cx) = Ok (ONode (Some n')) p' /\
+    structure n = structure n'.
+Proof. exact whitespace_irrelevant2. Qed.
+Print Assumptions C02_whitespace_irrelevant2_partial.
+
+Theorem C02_tree_whitespace_irrelevant2_partial : forall cx ps pos pos' d d',
+  ws_variant2 d d' ->
+  structure_items (fst (tree_of2 cx ps pos d)) = structure_items (fst (tree_of2 cx ps pos' d')).
+Proof. exact tree_ws_variant2. Qed.
+Print Assumptions C02_tree_whitespace_irrelevant2_partial.
+
+(** ** Non-vacuity (extended grammar) *)
+Open Scope N_scope.
+
+(** [a \begin{center}\nb \begin {equation}x\alpha\n\end{equation} \end \n{center}\begin{tabular}{c}1$2$\end{tabular}\n\begin{z*}\end{z*} ]
+    — an environment without arguments containing a math environment (whitespace
+    inside [\begin {…}] / [\end {…}]), an environment with one argument, an unknown
+    environment (fallback) with an empty body *)
+Definition c02_doc2 : doc2 :=
+  {| d_items2 :=
+       [Text2 [] [97];
+        Env2 [32] [] [99;101;110;116;101;114] []
+             [Text2 [10] [98];
+              Env2 [32] [32] [101;113;117;97;116;105;111;110] []
+                   [Text2 [] [120]; Mac2 [] [97;108;112;104;97] [10] []] [] []] [32] [32;10];
+        Env2 [] [] [116;97;98;117;108;97;114] [Grp2 [] [Text2 [] [99]] []]
+             [Text2 [] [49]; Math2 [] MDollar [Text2 [] [50]] []] [] [];
+        Env2 [10] [] [122;42] [] [] [] []];
+     d_trail2 := [32] |}.
+
+Example C02_parse_unparse2_nonvacuous :
+  ok_doc2 default_ctx c02_doc2 = true /\
+  parse_top (unparse2 c02_doc2) false default_ctx (walker_state default_ctx)
+  = Ok (ONode (Some (gen_nodelist 0 (fst (tree_of2 default_ctx (walker_state default_ctx) 0 c02_doc2)))))
+       (length (unparse2 c02_doc2)) /\
+  length (unparse2 c02_doc2) = 128%nat /\
+  length (fst (tree_of2 default_ctx (walker_state default_ctx) 0 c02_doc2)) = 6%nat.
+Proof. vm_compute. repeat split. Qed.
+
+(** the side conditions are not vacuous: an environment name the tokenizer does
+    not accept ([\begin{a#}]) is a token error *)
+Example C02_side_conditions2_needed :
+  let bad := {| d_items2 := [Env2 [] [] [97;35] [] [] [] []]; d_trail2 := [] |} in
+  ok_doc2 default_ctx bad = false /\
+  match parse_top (unparse2 bad) false default_ctx (walker_state default_ctx) with Ok _ _ => false | _ => true end = true.
+Proof. vm_compute. repeat split. Qed.
+
+(** a whitespace variant of [c02_doc2] *)
+Definition c02_doc2' : doc2 :=
+  {| d_items2 :=
+       [Text2 [] [97];
+        Env2 [10] [32;32] [99;101;110;116;101;114] []
+             [Text2 [32] [98];
+              Env2 [9] [] [101;113;117;97;116;105;111;110] []
+                   [Text2 [] [120]; Mac2 [] [97;108;112;104;97] [32] []] [] [10;10]] [10] [];
+        Env2 [] [32] [116;97;98;117;108;97;114] [Grp2 [] [Text2 [] [99]] []]
+             [Text2 [] [49]; Math2 [] MDollar [Text2 [] [50]] []] [] [];
+        Env2 [32;32] [] [122;42] [] [] [] []];
+     d_trail2 := [10] |}.
+
+Example C02_whitespace_irrelevant2_nonvacuous :
+  ws_variant2 c02_doc2 c02_doc2' /\ ok_doc2 default_ctx c02_doc2' = true /\
+  unparse2 c02_doc2 <> unparse2 c02_doc2' /\
+  structure_res (parse_top (unparse2 c02_doc2) false default_ctx (walker_state default_ctx))
+  = structure_res (parse_top (unparse2 c02_doc2') false default_ctx (walker_state default_ctx)) /\
+  structure_res (parse_top (unparse2 c02_doc2) false default_ctx (walker_state default_ctx)) <> None.
+Proof.
+  split; [|split; [vm_compute; reflexivity|split; [vm_compute; discriminate|split; [vm_compute; reflexivity|vm_compute; discriminate]]]].
+  unfold ws_variant2, wse. cbn. vm_compute. intuition (try discriminate; try reflexivity).
 Qed.
